@@ -29,8 +29,7 @@ Proof.
     destruct (negb (str_eqb _ (lit "]"))); [cbn [Bond.bind]; discriminate|].
     fold (weight_text r).
     destruct (map_opt py_float (split_ws (strip_chars (lit "|") (weight_text r)))) as [l|] eqn:El; [|cbn [Bond.bind]; discriminate].
-    destruct l as [|w [|w2 l']]; cbn [Bond.bind fst snd]; (destruct (_ || _)%bool; [discriminate|]); intros H; injection H as <-; intros _; cbn [d_weight d_trans].
-    + split; [discriminate|]. split; [intros l H; injection H as <-; split; reflexivity|discriminate].
+    destruct l as [|w [|w2 l']]; cbn [Bond.bind fst snd]; [discriminate| |]; (destruct (_ || _)%bool; [discriminate|]); intros H; injection H as <-; intros _; cbn [d_weight d_trans].
     + split; [discriminate|]. split; [discriminate|]. intros _ _. reflexivity.
     + split; [discriminate|]. split; [intros l H; injection H as <-; split; reflexivity|discriminate].
   - cbn [Bond.bind fst snd]. destruct (_ || _)%bool; [discriminate|]. intros H; injection H as <-; intros _; cbn [d_weight d_trans].
@@ -122,3 +121,21 @@ Section TokInv.
     apply Forall_rev. rewrite <- Ha. exact Hb.
   Qed.
 End TokInv.
+
+(* a parsed descriptor never carries an empty transition list (an empty weight specification is rejected) *)
+Theorem parse_descr_trans_nonempty raw n pre atom d : parse_descr raw n pre atom = OK d -> d_trans d <> Some [].
+Proof.
+  unfold parse_descr. destruct (str_eqb raw (lit "[]")).
+  { intros H; injection H as <-. cbn [d_trans]. discriminate. }
+  fold (raw_norm raw pre). set (r := raw_norm raw pre).
+  destruct (index r 0) as [c0|]; [|discriminate]. destruct (index r (-1)) as [cl|]; [|discriminate].
+  destruct (negb _); [discriminate|]. destruct (index r 1) as [c1|]; [|discriminate].
+  destruct (negb (in_set _ c1)); [discriminate|]. destruct (_ || _)%bool; [discriminate|].
+  match goal with |- context [Bond.bind ?x _] => destruct x as [id|]; cbn [Bond.bind]; [|discriminate] end.
+  destruct (contains (lit "|") r).
+  - destruct (negb (count_char (ch "|") r =? 2)); [cbn [Bond.bind]; discriminate|].
+    destruct (negb (str_eqb _ (lit "]"))); [cbn [Bond.bind]; discriminate|].
+    destruct (map_opt py_float _) as [l|]; [|cbn [Bond.bind]; discriminate].
+    destruct l as [|w [|w2 l']]; cbn [Bond.bind fst snd]; [discriminate| |]; (destruct (_ || _)%bool; [discriminate|]); intros H; injection H as <-; cbn [d_trans]; discriminate.
+  - cbn [Bond.bind fst snd]. destruct (_ || _)%bool; [discriminate|]. intros H; injection H as <-. cbn [d_trans]. discriminate.
+Qed.
